@@ -342,6 +342,9 @@ def check(prop, tier, seed):
     plan = PLAN[prop]
     os.makedirs(WORK, exist_ok=True)
     os.makedirs(EVID, exist_ok=True)
+    for f in os.listdir(WORK):          # leftovers of earlier runs of this check
+        if f.startswith(("trace_%s_" % prop, "vec_%s_" % prop)):
+            os.remove(os.path.join(WORK, f))
     configs = plan["configs"]
     build(configs)
 
@@ -530,6 +533,11 @@ def setup():
         if p.returncode != 0 or "Semantic errors" in p.stdout or "Parse Error" in p.stdout or "Fatal" in p.stdout:
             raise ToolError("SANY failed on %s:\n%s" % (mname, p.stdout[-2000:]))
     log("parsed %d TLA+ modules" % len(mods))
+    # spec-only work shared by all checks: model-check and export every L2 module once (cached by content hash)
+    import l2
+    bad = l2.prewarm(dict(tlc=tlc, WORK=WORK, SPECS=SPECS, log=log))
+    if bad:
+        raise ToolError("TLC reports an error in an L2 specification: %s" % [(b[0], b[1]) for b in bad])
     return 0
 
 
